@@ -11,7 +11,10 @@ REPO = os.environ.get("LENA_REPO", "/repo")
 
 class LoopSpec(object):
     def __init__(self, invariant=(), decreases=None, havoc=None, keep=None, ghost=None, init_ghost=None, body_ghost=None,
-                 cursor=None):
+                 cursor=None, body_end=()):
+        # body_end: clauses PROVED at the end of every iteration (next / continue), over the locals of that iteration and
+        # the body_ghost snapshots taken at its start; they are obligations only (never assumed at the loop head)
+        self.body_end = list(body_end)
         # cursor: local name -> (root, keys, lo, hi): at the loop head the name refers to the OBJECT reached from the
         # dictionary `root` by the keys keys[lo..hi) (keys: a list of keys, or one key repeated); checked at loop entry
         # and at every back edge against the reference the body actually computed (dicts.same_ref)
@@ -370,6 +373,8 @@ class World(object):
             return Module(modname + "." + attr)          # a stdlib sub-module with library contracts (os.path)
         lib = interp.contracts.lib.get((modname, attr)) or interp.contracts.lib.get(attr)
         if lib is not None:
+            if not callable(lib):
+                return lib          # a library CONSTANT (os.sep)
             return Fun("lib", name=attr, mod=modname, impl=lib)
         c = interp.contracts.find(attr)
         if c is not None and modname.startswith("lena"):
